@@ -130,6 +130,8 @@ Definition ex_req : request :=
 Definition ex_reply : response :=
   mkResp 418 [("Cache-Control", ["max-age=3"]); ("Connection", ["x-bar"]); ("X-Bar", ["hop"]); ("x-up", ["1"])] "body:3".
 
+(* a POST with a body (in the check also sent through the chain instance with proxy tracing enabled, to a cluster
+   with feature gate Tracing=true: the tracing filters are the identity on the request) *)
 Example C04_gateway_nonvacuous :
   gateway "tok" "10.0.0.9" COk ex_req (mkId "alice" ["g1"] []) (fun _ => true) ex_reply =
     Relayed (mkUp "POST" "/api/v1/namespaces/n/pods?x=1" "ok.test"
